@@ -121,8 +121,17 @@ Section Xibc.
       intros I P. pose proof (wf_entry _ I) as W. unfold Genesis.wf_xibc_entry in W; cbv beta iota in W.
       rewrite (not_chain_name clienttypes_KeyRelayers k ltac:(in_prefixes) P) in W.
       prefixes_false_in W. rewrite P in W.
-      destruct (rel_unmarshal v) as [r|]; [|discriminate]. apply andb_true_iff in W as [W1 W2].
+      destruct (rel_unmarshal v) as [r|]; [|discriminate]. apply andb_true_iff in W as [W W3]. apply andb_true_iff in W as [W1 W2].
       apply bytes_eqb_eq in W1, W2. exists r. auto.
+    Qed.
+
+    Lemma wf_relayers_address k v r :
+      In (k, v) s -> is_prefix clienttypes_KeyRelayers k = true -> rel_unmarshal v = Some r -> r_address r <> [].
+    Proof.
+      intros I P U. pose proof (wf_entry _ I) as W. unfold Genesis.wf_xibc_entry in W; cbv beta iota in W.
+      rewrite (not_chain_name clienttypes_KeyRelayers k ltac:(in_prefixes) P) in W.
+      prefixes_false_in W. rewrite P, U in W. apply andb_true_iff in W as [_ W3].
+      intro E. rewrite E in W3. discriminate.
     Qed.
 
     Lemma wf_hashes k v : In (k, v) s ->
@@ -436,11 +445,15 @@ Section Xibc.
 
     Lemma no_import_panic : client_import_panics CS CONS the_client_genesis = false.
     Proof.
-      unfold client_import_panics. apply not_true_is_false. intro H.
-      apply existsb_exists in H as [[name gms] [I H]]. cbn [snd] in H. apply existsb_exists in H as [[k v] [K E]]. cbn [fst] in E.
-      assert (X : exists gms, In (name, gms) (g_metadata _ _ the_client_genesis) /\ In (k, v) gms) by (exists gms; auto).
-      apply in_the_metadata in X as [c [_ [_ M]]]. destruct k; [|discriminate].
-      destruct (cs_type c); cbn in M; discriminate.
+      unfold client_import_panics. apply not_true_is_false. intro H. apply orb_true_iff in H as [H|H].
+      - apply existsb_exists in H as [[name gms] [I H]]. cbn [snd] in H. apply existsb_exists in H as [[k v] [K E]]. cbn [fst] in E.
+        assert (X : exists gms, In (name, gms) (g_metadata _ _ the_client_genesis) /\ In (k, v) gms) by (exists gms; auto).
+        apply in_the_metadata in X as [c [_ [_ M]]]. destruct k; [|discriminate].
+        destruct (cs_type c); cbn in M; discriminate.
+      - apply existsb_exists in H as [r [I E]]. cbn [g_relayers the_client_genesis] in I. unfold relayers_of in I.
+        apply in_flat_map in I as [[k v] [I H]]. apply in_prefix_iter in I as [I P]. cbn [fst snd] in *.
+        destruct (rel_unmarshal v) as [r'|] eqn:U; [|destruct H]. destruct H as [H|[]]. subst r'.
+        pose proof (wf_relayers_address _ _ _ I P U) as NE. destruct (r_address r); [congruence | discriminate].
     Qed.
 
     Theorem xibc_round_trip : exists g, export_xibc s = Ok g /\ import_xibc g = Ok s.
